@@ -342,7 +342,7 @@ func tighter(env an.Env, cur, cand *an.NF, lower bool) *an.NF {
 // successPaths enumerates the success paths (last result nil error) of fn with
 // the given callees enumerated path by path.
 func successPaths(c *Ctx, rule string, fn *ssa.Function, inline map[*ssa.Function]bool) []*an.Path {
-	ps, err := c.XO.Paths(fn, an.PathOpts{MaxPaths: 400000, InlinePaths: func(g *ssa.Function) bool { return inline[g] }})
+	ps, err := c.XO.Paths(fn, an.PathOpts{MaxPaths: 400000, InlinePaths: func(g *ssa.Function) bool { return inline[g] || c.helperInline(fn)(g) }})
 	if err != nil {
 		c.R.Undecided(rule, "paths:"+c.fname(fn), c.fname(fn), c.pos(fn.Pos()), err.Error())
 	}
